@@ -344,6 +344,27 @@ func main() {
 			})
 			e.Strs("proxyInfoFields", fields, "fields of proxyFrac with an Info type (none: no cached copy)")
 		}
+		if f, err := r.Load("frac/unpack_cache.go"); err != nil {
+			e.Missing("frac/unpack_cache.go", err)
+		} else {
+			if fd := f.Func("UnpackCache", "unpackMIDs"); fd == nil {
+				e.Missing("unpackMIDs", "UnpackCache.unpackMIDs not found")
+			} else {
+				e.Strs("unpackMIDs", stmts(f, fd), "statements of UnpackCache.unpackMIDs")
+			}
+			if fd := f.Func("", "unpackRawIDsVarint"); fd == nil {
+				e.Missing("unpackRawIDsVarint", "unpackRawIDsVarint not found")
+			} else {
+				e.Strs("unpackRawIDsVarint", stmts(f, fd), "statements of unpackRawIDsVarint")
+			}
+		}
+		if f, err := r.Load("frac/disk_blocks.go"); err != nil {
+			e.Missing("frac/disk_blocks.go", err)
+		} else if fd := f.Func("DiskIDsBlock", "packMIDs"); fd == nil {
+			e.Missing("packMIDs", "DiskIDsBlock.packMIDs not found")
+		} else {
+			e.Strs("packMIDs", stmts(f, fd), "statements of DiskIDsBlock.packMIDs")
+		}
 		if f, err := r.Load("fracmanager/sealed_frac_cache.go"); err != nil {
 			e.Missing("fracmanager/sealed_frac_cache.go", err)
 		} else {
